@@ -18,7 +18,7 @@ LEVEL = "exploration"
 MOD = "mc.props.c12"
 
 RADII = [0, -3, 1e-3, 1, 3, 10, 1e3]
-RADII_T = [0, -3, -0.5, 1e-6, 1e-3, 0.25, 1, 3, 7.5, 10, 100, 1e3, 1e6]
+RADII_T = [0, -3, -0.5, 1e-4, 1e-3, 0.25, 1, 3, 7.5, 10, 100, 1e3, 1e4]
 ROTS_T = [0, 1e-3, 15, 30, 45, 60, 89.999, 90, 120, 135, 180, 225, 270, 315, 360, 400, 720.5, -30, -90, -359]
 ROTS = [0, 30, 45, 90, 135, 180, 270, 360, 400, -30]
 FLAGS = [(0, 0), (0, 1), (1, 0), (1, 1)]
